@@ -602,10 +602,26 @@ def build_bytes_multi(ms: MultiSpec) -> bytearray:
 _CODE_NAME = {v: k for k, v in vars(BO).items() if not k.startswith('_')}
 
 
-def spec_from_bytes(buf) -> Spec:
-  """Abstract description of an existing single-subgraph model (corpus)."""
+MULTI_CORPUS = ('two_signatures', 'weight_sharing_fcs')
+
+
+def is_multi(desc):
+  return desc['kind'] == 'gen2' or (desc['kind'] == 'corpus' and desc.get('name') in MULTI_CORPUS)
+
+
+def multispec_from_bytes(buf):
   m = flatbuffer_utils.read_model_from_bytearray(bytearray(buf))
-  sg = m.subgraphs[0]
+  specs, keys = [], []
+  for sd in m.signatureDefs:
+    specs.append(spec_from_bytes(buf, sd.subgraphIndex, sd))
+    keys.append(sd.signatureKey.decode())
+  return MultiSpec(specs, keys)
+
+
+def spec_from_bytes(buf, subgraph_index=0, signature=None) -> Spec:
+  """Abstract description of one subgraph of an existing model (corpus)."""
+  m = flatbuffer_utils.read_model_from_bytearray(bytearray(buf))
+  sg = m.subgraphs[subgraph_index]
   s = Spec()
   for t in sg.tensors:
     data = m.buffers[t.buffer].data
@@ -632,7 +648,7 @@ def spec_from_bytes(buf) -> Spec:
   s.inputs = [int(i) for i in sg.inputs]
   s.outputs = [int(i) for i in sg.outputs]
   if m.signatureDefs:
-    sd = m.signatureDefs[0]
+    sd = signature if signature is not None else m.signatureDefs[0]
     by_idx = {tm.tensorIndex: tm.name.decode() for tm in sd.inputs}
     s.sig_in = [by_idx.get(i, 'in%d' % k) for k, i in enumerate(s.inputs)]
     by_idx = {tm.tensorIndex: tm.name.decode() for tm in sd.outputs}
@@ -671,7 +687,7 @@ def get_model(desc):
   else:
     with open(os.path.join(CORPUS_DIR, desc['name'] + '.tflite'), 'rb') as f:
       b = bytearray(f.read())
-    spec = spec_from_bytes(b)
+    spec = multispec_from_bytes(b) if desc['name'] in MULTI_CORPUS else spec_from_bytes(b)
   _CACHE[key] = (spec, bytes(b))
   return spec, bytearray(b)
 
